@@ -265,13 +265,14 @@ PROPERTIES = {
         'native_sweep': {'harness': 'h5start_replay', 'runs': [['all']], 'hdf5': True},
         'lemmas': [],
         'level': 'other',
-        'claim': 'the loading half only: HDF5File::readPhaseSpace selects exactly the requested record of /PhaseSpace/data (use_step counted from the end when negative, -1 = last), the whole record for the square grids Inovesa writes, '
+        'claim': 'loading and refusing: HDF5File::readPhaseSpace selects exactly the requested record of /PhaseSpace/data (use_step counted from the end when negative, -1 = last), the whole record for the square grids Inovesa writes, '
                  'reads it into a single-bunch phase space whose grid size is the one stored in the file and whose buffer the read fits; a multi-bunch record, an unexpected rank, a file without records or an unusable grid size is refused by an exception '
-                 '(turned into a message and a null result by makePSFromHDF5). That continuing for T2 periods ends in the phase space of an uninterrupted run is a statement about two whole executions and is not covered',
+                 '(every failure of the loader is caught, reported and turned into a null result by makePSFromHDF5; main goes on only with what the loader delivered, otherwise it ends after naming the file; the file name reaches main as the user gave it). '
+                 'That continuing for T2 periods ends in the phase space of an uninterrupted run is a statement about two whole executions: not a contract; the thorough tier runs it on the real binary (scenario restart: three renormalisation settings, and missing / non-HDF5 / directory start files)',
         'assumptions': [A_LIB, DROPS, 'HDF5 library: getSimpleExtentDims reports the extents of the dataset (record count < 2^48, per-record extents < 2^31), selectHyperslab(count,start) selects prod(count) points starting at start, '
                         'DataSet::read transfers as many elements as the memory data space holds, a null extent array with positive rank is reported as an error (observed: rank-2 file)',
                         'every other member call on an H5:: object is bound to a generic contract: may write through its pointer arguments, returns an arbitrary value'],
-        'uncovered': ['equality of the continued run with the uninterrupted run (two program executions)', 'bit-exactness of the stored values (HDF5 type conversion is library behaviour)', 'missing or unreadable file (H5::H5File constructor throws: library behaviour; the catch blocks of makePSFromHDF5 are not under contract)'],
+        'uncovered': ['equality of the continued run with the uninterrupted run (two program executions)', 'bit-exactness of the stored values (HDF5 type conversion is library behaviour)', 'that the H5::H5File constructor throws for a missing or unreadable file (library behaviour; what happens WHEN it throws is under contract: makePSFromHDF5#a_failed_load_yields_a_message_and_null, main#post.run_continues_only_with_the_loaded_start_distribution)'],
         'explanation': 'contract of HDF5File::readPhaseSpace with the HDF5 calls bound to stated library contracts',
         'technique': TECH,
     },
